@@ -61,6 +61,9 @@ pub struct Doc {
   /// exists only inside the expansion rule
   #[serde(default)]
   pub expand_kind: Option<String>,
+  /// the rewriter's fix is `R[$<name>]` with the name of a transformed variable of the rule
+  #[serde(default)]
+  pub rewriter_uses_transformed: Option<String>,
 }
 
 #[derive(Clone, Debug)]
@@ -99,7 +102,7 @@ pub fn strategy(opts: &SrcOpts) -> BoxedStrategy<Choice> {
       any::<bool>(),
       prop::collection::vec(0u8..12, 1..7),
       any::<bool>(),
-      prop_oneof![4 => Just(0u8), 6 => 1u8..10],
+      prop_oneof![4 => Just(0u8), 6 => 1u8..11],
       0u8..13,
       any::<Index>(),
     ),
@@ -269,6 +272,7 @@ pub fn interpret(corpus: &Corpus, opts: &SrcOpts, ch: &Choice, st: &mut Stats) -
     violates: None,
     isolate: false,
     expand_kind: None,
+    rewriter_uses_transformed: None,
   };
   perturb(&mut doc, ch, &ctx);
   for l in &built.labels {
@@ -421,6 +425,14 @@ fn perturb(doc: &mut Doc, ch: &Choice, ctx: &RuleCtx) {
       doc.extra_matches = Some("u0".into());
       doc.violates = Some(format!("utility u0 requires itself on the same node through {why}"));
       doc.isolate = true;
+    }
+    10 => {
+      // the rewriter's fix names a transformed variable of the enclosing rule
+      let first = doc.transforms.first().filter(|(_, t)| !matches!(t, TK::Rewrite { .. })).map(|(n, _)| n.clone());
+      if let (Some(name), Some(rw)) = (first, doc.rewriters.first_mut()) {
+        rw.2 = format!("R[${name}]");
+        doc.rewriter_uses_transformed = Some(name);
+      }
     }
     _ => {
       // no kind-determining key left
@@ -826,6 +838,22 @@ fn check_inner(doc: &Doc, st: &mut Stats) -> CheckResult {
     st.label("origin_not_matched(C02's subject)");
     return Ok(());
   };
+  if let Some(name) = &doc.rewriter_uses_transformed {
+    // either the document is rejected (a rewriter cannot see that variable) or the variable is
+    // expanded; accepted with an empty expansion is the violation
+    st.label("rewriter_fix_uses_transformed_variable(accepted)");
+    let env = nm.get_env();
+    if let (Some(t), Some(rw)) = (env.get_transformed(name), env.get_transformed("RW")) {
+      let (t, rw) = (String::from_utf8_lossy(t), String::from_utf8_lossy(rw));
+      if !t.is_empty() && rw.contains("R[]") {
+        fail!(
+          "C12:fix-variable-not-replaced:transformed-variable-in-rewriter-fix",
+          "the rewriter's fix uses ${name} (= {t:?} for this match) but the rewritten text is {rw:?}\n{yaml}"
+        );
+      }
+    }
+    return Ok(());
+  }
   let fixer = match config.get_fixer() {
     Ok(Some(f)) => f,
     _ => fail!("C12:no-fixer", "accepted rule with fix has no fixer\n{yaml}"),
